@@ -160,6 +160,7 @@ enum class Chunking { whole, bytewise, random };
 struct NetCfg {
     vt latency_min = 100 * US, latency_max = 400 * US;
     vt write_done_delay_max = 0;        // > 0: write completions are delayed (full send buffer)
+    vt write_done_delay_min = 0;
     Chunking chunking = Chunking::whole;
     bool shutdown_hangs = false;
     vt shutdown_delay = 50 * US;
